@@ -40,9 +40,13 @@ def gen_outline(rng):
     heads = []
     used = set()
     for lv in levels:
-        w = rng.choice(WORDS) + ' ' + str(len(used))
+        if used and rng.random() < 0.2:
+            w = rng.choice(sorted(used))            # the same title again: the table lists it as often as it is written
+        else:
+            w = rng.choice(WORDS) + ' ' + str(len(used))
         used.add(w)
         heads.append((lv, w))
+    repeated = {w for _, w in heads if sum(1 for _, x in heads if x == w) > 1}
     lines = []
     setext_in_quote = []
     for lv, w in heads:
@@ -56,7 +60,7 @@ def gen_outline(rng):
             pre = '> '
         elif cont < 0.3:
             pre = '- '
-        if lv <= 2 and style < 0.3:
+        if lv <= 2 and style < 0.3 and not (pre == '> ' and w in repeated):      # (the recorded finding is recognised by title)
             ind = '  ' if pre == '- ' else pre
             if pre == '> ':
                 setext_in_quote.append(w)
